@@ -21,8 +21,9 @@ Definition file_pkg (pkg : bytes) (file : N) : bytes :=
 
 Definition qualify (pkg p n : bytes) : bytes := (match p with [] => pkg | _ => p end) ++ [46] ++ n.
 
-(* 2: field — [proto name; json name; type name; j5 kind; tenant]
-               [number; proto type; repeated; required; flatten; in oneof; primary; has tenant; filterable]
+(* 2: field — [proto name; json name; type name; j5 kind; tenant; foreign package; foreign entity]
+               [number; proto type; repeated; required; flatten; in oneof; primary; has tenant; filterable;
+                has foreign key; proto3 optional]
    3: default filters of the field above (only when filterable) *)
 Definition field_lines (pkg : bytes) (in_oneof : bool) (i : N) (f : ofield) : list line :=
   let '(pt, tn, kind) := match f_type f with
@@ -32,10 +33,13 @@ Definition field_lines (pkg : bytes) (in_oneof : bool) (i : N) (f : ofield) : li
     | TEnum p n => (14, qualify pkg p n, bs "enum")
     end in
   (2, [to_snake (f_json f); f_json f; tn; (if f_repeated f then bs "array" else kind);
-       match f_tenant f with Some t => t | None => [] end],
+       match f_tenant f with Some t => t | None => [] end;
+       match f_foreign f with Some p => fst p | None => [] end;
+       match f_foreign f with Some p => snd p | None => [] end],
       [i; pt; b2n (f_repeated f); b2n (f_required f); b2n (f_flatten f); b2n in_oneof;
        b2n (f_primary f); b2n (match f_tenant f with Some _ => true | None => false end);
-       b2n (match f_filter f with Some _ => true | None => false end)])
+       b2n (match f_filter f with Some _ => true | None => false end);
+       b2n (match f_foreign f with Some _ => true | None => false end); b2n (f_optional f)])
   :: match f_filter f with Some l => [(3, l, [])] | None => [] end.
 
 Fixpoint fields_lines (pkg : bytes) (in_oneof : bool) (i : N) (l : list ofield) : list line :=
